@@ -288,3 +288,16 @@ Example C05_witness_close_mid_streaming_message :
   [(0, WHttp); (0, CbOpen); (0, IsOpen); (0, WHdr); (0, WPayload 2); (0, WClose OApi (Some 1000) None);
    (0, Raised ExDisconnected)].
 Proof. vm_compute. reflexivity. Qed.
+
+(* the application's onConnect raises right after a valid opening handshake.  Client: the connection is failed with the
+   close code found at that call site ([code_onconnect_failed], regenerated) -- a close frame with failByDrop off, a plain
+   drop with failByDrop on; onOpen is never called.  Server: an HTTP error response and the drop *)
+Example C05_witness_onconnect_raises :
+  snd (run (mkCfg Client false false 2000 1000 1000 1000 0 12 true 0 false) [EConnectRaises [120]; ETick 1000; EOwnDrop]) =
+    [(0, WHttp); (0, WClose OFail (Some code_onconnect_failed) (Some [120])); (1000, IsClosed); (1000, Abort);
+     (1000, CbClose false (Some 1006) None RCloseTO)] /\
+  snd (run (mkCfg Client true false 2000 1000 1000 0 0 12 true 0 false) [EConnectRaises [120]; EOwnDrop]) =
+    [(0, WHttp); (0, IsClosed); (0, Abort); (0, CbClose false (Some 1006) None RIDropped)] /\
+  snd (run (mkCfg Server false false 2000 1000 0 0 0 12 true 0 false) [EConnectRaises [120]; EOwnDrop]) =
+    [(0, WHttp); (0, IsClosed); (0, Lose); (0, CbClose false (Some 1006) None RHandshake)].
+Proof. vm_compute. auto. Qed.
